@@ -72,6 +72,15 @@ theorem attestation_window_sound (cfg : Config) (s : State) (data : AttestationD
       ↔ Block.attestation_timing cfg s data = .ok () :=
   attestation_window_eq cfg s data hspe hmin hcur
 
+/-- non-vacuity of the hypotheses of `attestation_window_sound` -/
+example :
+    let cfg : Config := { (default : Config) with SLOTS_PER_EPOCH := 8, MIN_ATTESTATION_INCLUSION_DELAY := 1 }
+    let s : State := { (default : State) with slot := 17 }
+    ∀ data : AttestationData,
+      attestationTimingOk 8 1 (decide (s.fork ≥ .deneb)) 17 data.slot data.target.epoch = true ↔ Block.attestation_timing cfg s data = .ok () := by
+  intro cfg s data
+  exact attestation_window_sound cfg s data (by decide) (by decide) (by decide)
+
 /-- non-vacuity: the last admissible slot (data.slot + SLOTS_PER_EPOCH = state.slot) before deneb, one later only from deneb on -/
 example : attestationTimingOk 8 1 false 17 9 1 = true ∧ attestationTimingOk 8 1 false 18 9 1 = false ∧
           attestationTimingOk 8 1 true 18 9 1 = true ∧ attestationTimingOk 8 1 true 17 17 2 = false := by decide
